@@ -17,6 +17,9 @@ def judge(j, problems):
     if P.in_exact_class(root):
         P.check_defaults(P.flatten(root, root), c["data"], g["defaulted_json"], root, "", problems)
         return True
+    # with anyOf / oneOf the selected alternative is not recomputed here; what the schema itself and its allOf members
+    # declare applies whatever is selected
+    P.check_must_fill(P.flatten(root, root), c["data"], g["defaulted_json"], root, "", problems)
     return False
 
 
